@@ -18,6 +18,9 @@ def filler(g, mode, slot):
         return b''
     if mode == 'all' or r.random() < 0.6:
         n = 2 * r.randrange(1, 33)
+        if r.random() < 0.12:
+            # gaps around one and two 4 KiB blocks (scratch buffers, read-ahead sizes)
+            n = r.choice([4094, 4096, 4098, 8190, 8192, 8194, 12290])
         kind = r.randrange(0, 3)
         if kind == 0:
             return bytes(n)
@@ -44,10 +47,15 @@ def generate(out_dir, seed, max_n):
                     if with_m and not feats:
                         break
                 recs.append(m)
-            bodies = [shpref.enc_record(k + 1, m, True) for k, m in enumerate(recs)]
             for perm in itertools.permutations(range(n)):
                 for mode in ('none', 'all', 'random'):
                     g = Gen('%d/c14f/%d/%d/%s/%s' % (seed, t, n, perm, mode))
+                    # record numbers: by index position, by physical position, all zero, descending
+                    # (the index alone locates a record; its number is not part of that)
+                    numbering = count % 4
+                    slot_of = {k: slot for slot, k in enumerate(perm)}
+                    num = lambda k: [k + 1, slot_of[k] + 1, 0, n - k][numbering]
+                    bodies = [shpref.enc_record(num(k), m, True) for k, m in enumerate(recs)]
                     buf = b''
                     offsets = {}
                     fill_total = 0
@@ -74,6 +82,21 @@ def generate(out_dir, seed, max_n):
                                              'filler_mode': mode, 'filler_bytes': fill_total,
                                              'trailing_filler': len(f)}) + '\n')
                     count += 1
+    # layouts WITHOUT any record: an index of zero entries next to a .shp that holds nothing
+    # (or nothing but filler) behind its header
+    for t in TYPES:
+        for mode in ('none', 'all'):
+            g = Gen('%d/c14z/%d/%s' % (seed, t, mode))
+            buf = filler(g, mode, 0)
+            shp = shpref.enc_header((100 + len(buf)) // 2, t) + buf
+            shx = shpref.enc_header(50, t)
+            name = 'p%02d_n0_%s' % (t, mode)
+            open(os.path.join(out_dir, name + '.shp'), 'wb').write(shp)
+            open(os.path.join(out_dir, name + '.shx'), 'wb').write(shx)
+            files.write(json.dumps({'file': name, 'shx': True, 'typed': t}) + '\n')
+            models.write(json.dumps({'file': name, 'type': t, 'records': [], 'physical_order': [],
+                                     'filler_mode': mode, 'filler_bytes': len(buf), 'trailing_filler': len(buf)}) + '\n')
+            count += 1
     # layouts with MANY records (amounts straddling powers of two): point records in reversed and
     # in interleaved physical order, with and without filler
     for n in ([1025, 4097] if max_n <= 4 else [1025, 4097, 8193, 16385]):
